@@ -142,7 +142,9 @@ fn prepare(seed: &Seed) -> Result<Prepared, String> {
     let mut globals = cv.clone();
     globals.extend(rt_consts());
     let an = analyze(&seed.files, &parsed, &globals);
+    let bulk = ["num-", "cmp-", "logic/"].iter().any(|p| seed.name.starts_with(p));
     let opts = Opts {
+        e8_names: !bulk || seed.name.ends_with("/0"),
         only_fn: seed.only_fn.clone(),
         ctx_vars: cv.iter().map(|(n, t)| (n.to_string(), t.clone())).collect(),
         rt_consts: if seed.name == "hand/runtime-constant" { rt_consts().iter().map(|(n, t)| (n.to_string(), t.clone())).collect() } else { vec![] },
